@@ -173,6 +173,9 @@ def run(ctx):
         ctx.violation("static-lib-build", "coq/lib or coq/model does not build", {"log": log[-3000:]}, found_input=False)
         return
     files = ctx.copy_props("C04/C04_theorems.v")
+    for extra in ("C04_unique.v", "C04_dense.v"):
+        if os.path.exists(os.path.join(common.COQ, "props", "C04", extra)):
+            files += ctx.copy_props("C04/" + extra)
     r = ctx.coq(files, timeout=600)
     ctx.sample({"theorem": "C04_r1_residual: forall n dofs values A b xi, (forall i in unknown, sum_{j in unknown} A i j * xi j = b i - sum_{c in known} A i c * entered_sum dofs values c) -> forall i in unknown, sum_{j<n} A i j * x_r1 j = b i",
                 "proof": "split of the sum over range(n) by the mask filter; ring"})
